@@ -471,7 +471,20 @@ func (fr *Frame) intrinsic(st *State, name string, fn *ssa.Function, args []Valu
 		// wrapped errors: scan the varargs array stores syntactically
 		if name == "fmt.Errorf" {
 			r.declareOnce("(declare-fun err.wraps (" + sRef + " " + sRef + ") Bool)")
-			for _, w := range fr.wrappedErrors(in) {
+			ws := fr.wrappedErrors(in)
+			{
+				// a fresh error wraps exactly what its %w operands are and wrap - nothing else
+				alts := []string{}
+				for _, w := range ws {
+					alts = append(alts, "(= x!v "+w.Ref+")", "(err.wraps "+w.Ref+" x!v)")
+				}
+				rhs := "false"
+				if len(alts) > 0 {
+					rhs = "(or " + strings.Join(alts, " ") + ")"
+				}
+				r.assume(st, fmt.Sprintf("(forall ((x!v %s)) (! (=> (err.wraps %s x!v) %s) :pattern ((err.wraps %s x!v))))", sRef, ref, rhs, ref))
+			}
+			for _, w := range ws {
 				r.assume(st, "(err.wraps "+ref+" "+w.Ref+")")
 				// errors.Is follows the whole chain: what the wrapped error wraps, the new one wraps too
 				r.assume(st, fmt.Sprintf("(forall ((x!w %s)) (! (=> (err.wraps %s x!w) (err.wraps %s x!w)) :pattern ((err.wraps %s x!w))))", sRef, w.Ref, ref, w.Ref))
@@ -487,7 +500,8 @@ func (fr *Frame) intrinsic(st *State, name string, fn *ssa.Function, args []Valu
 			return nil, true, r.unsupported("errors.Is args")
 		}
 		// is(a,b) <=> a == b or a (transitively) wraps b; we model one level: equality or recorded wrap
-		return boolV(or(and(eq(a.Tag, b.Tag), eq(a.Ref, b.Ref)), "(err.wraps "+a.Ref+" "+b.Ref+")")), true, nil
+		// error values are identified by the object they point to
+		return boolV(or(eq(a.Ref, b.Ref), "(err.wraps "+a.Ref+" "+b.Ref+")")), true, nil
 	}
 	return nil, false, nil
 }
@@ -647,6 +661,9 @@ func (fr *Frame) callContract(st *State, ct *FuncContract, fn *ssa.Function, sig
 		if err != nil {
 			return nil, fmt.Errorf("requires %s of %s: %v", cl.Label, ct.Name, err)
 		}
+		if ct.Opts["noframe"] {
+			r.assumed["frame of "+ct.Name+" (opt noframe: the caller relies on its modifies clause, which is not checked against the body)"] = true
+		}
 		if ct.Opts["nopre"] {
 			r.assumed["precondition of "+ct.Name+" at its call sites (assumed, not proved: opt nopre)"] = true
 		}
@@ -699,6 +716,10 @@ func (fr *Frame) callContract(st *State, ct *FuncContract, fn *ssa.Function, sig
 		// it is tagged with: each clause is discharged by the check of the properties it names
 		// (fault-mode runs keep to the fault-mode clauses: the others describe the exact model)
 		if r.faults && !r.active(cl.Tags) {
+			continue
+		}
+		if strings.Contains(cl.Text, "ret(") || strings.Contains(cl.Text, "retof(") {
+			// speaks about calls made inside the callee: meaningless in the caller's frame
 			continue
 		}
 		if knownOpenAny[ct.Name+"#post#"+cl.Label] {
